@@ -138,7 +138,7 @@ func expectedURI(override, nodeID, connAddr string) (hostport string, refuse boo
 		if p := u.Port(); p != "" && !bare {
 			port = p
 		}
-		if un := u.User.Username(); un != "" && un != nodeID {
+		if un := u.User.Username(); un != "" && !strings.EqualFold(un, nodeID) {
 			return "", true
 		}
 	}
@@ -881,7 +881,13 @@ func (d *Director) AddNode(via *Actor, wl *Wallet, node *Actor) error {
 	led := d.ledger()
 	ctx, cancel := d.ctx()
 	defer cancel()
-	err := via.Call(ctx, nil, "pool_addNode", wl.WSigned("pool_addNode", d.nonce(wl.Addr), node.ID)...)
+	sentID := node.ID
+	if alt := respell(node.ID, d.choose("addnode.respell", 8)); alt != node.ID && len(node.ID) == 128 {
+		// the node named in another spelling of its id (upper-case hex digits): the same node
+		sentID = alt
+		op += " [node id as " + alt[:6] + "...]"
+	}
+	err := via.Call(ctx, nil, "pool_addNode", wl.WSigned("pool_addNode", d.nonce(wl.Addr), sentID)...)
 	d.logf("%s -> %v", op, err)
 	if isVerifyFailed(err) {
 		// refused by the verification step: no effect expected (C04/C06 decide whether that is right)
